@@ -274,3 +274,26 @@ Fixpoint interp_large_from (stripes : list (list Qc)) (alphas : list Qc) (c : sc
   end.
 Definition interp_large (stripes : list (list Qc)) (alphas : list Qc) (pts : list (list Qc)) : list Qc :=
   fst (interp_large_from stripes alphas [] pts).
+
+(* ================================================================== the Python list expressions behind two shapes of this model *)
+(* old_point_list = [x for x in get_cross_product_list(old_grid_coord[key]) if 0.0 not in x and 1.0 not in x]
+   (the stored stripes contain the domain boundary); proved equal to the points of grid_hats in the order of the stored b *)
+Definition not01 (c : Qc) : bool := negb (Qc_eqb c 0) && negb (Qc_eqb c 1).
+Definition old_point_list_py (stripes : list (list Qc)) : list (list Qc) :=
+  filter (fun x => negb (memQ 0 x) && negb (memQ 1 x)) (cross stripes).
+
+(* np.unique (sort, drop repetitions) and np.intersect1d; domain_data of find_data_in_domain:
+   domain_data = sorted_data[0][r0]; for d in range(dim): domain_data = np.intersect1d(domain_data, sorted_data[d][r_d]);
+   proved equal to the gather form used by find_data *)
+Fixpoint ins_u (k : nat) (l : list nat) : list nat :=
+  match l with
+  | [] => [k]
+  | j :: r => if (k <? j)%nat then k :: l else if (k =? j)%nat then l else j :: ins_u k r
+  end.
+Definition unique_sorted (l : list nat) : list nat := fold_right ins_u [] l.
+Definition intersect1d (a b : list nat) : list nat := filter (fun k => mem_nat k b) (unique_sorted a).
+Definition domain_data_py (slices : list (list nat)) : list nat :=
+  match slices with
+  | [] => []
+  | s0 :: _ => fold_left intersect1d slices s0
+  end.
